@@ -51,6 +51,18 @@ BT = {
 BT_CYCLE = ["Single", "Double", "Triple", "Aromatic"]
 EL = {"C": Element.C, "N": Element.N, "X": Element.Unknown}
 # get_substr_indices returns what match yields, re-indexed: the same symptom on both is one finding (reported on match)
+# how molli builds the graph queries on one another (bond.py): a broken lower layer shows in everything above it
+_TRAV = ("connected_atoms", "bonds_with_atom")
+DEPENDS = {
+    "connected_atoms": ("bonds_with_atom",),
+    "bonded_valence": ("bonds_with_atom",),
+    "n_bonds_with_atom": _TRAV,
+    "yield_bfs": _TRAV,
+    "yield_bfsd": _TRAV,
+    "yield_bfs(direction)": _TRAV,
+    "yield_bfsd(direction)": _TRAV,
+    "is_bond_in_ring": ("yield_bfs(direction)",) + _TRAV,
+}
 CONSEQUENTIAL = (("get_substr_indices", "match"), ("ConformerEnsemble.get_substr_indices", "match"))
 
 
@@ -554,11 +566,11 @@ def check_match(ctx, agg, tg, pg, bt, apis):
     patoms = list(pat.atoms)
 
     for api in apis:
-        cls_name = "ConformerEnsemble" if api == "ens.get_substr_indices" else "Connectivity"
+        cls_name = {"ens.get_substr_indices": "ConformerEnsemble", "mol.get_substr_indices": "Molecule"}.get(api, "Connectivity")
         tgt = build(cls_name, tn, ted, tcols, tbts)
         tatoms = list(tgt.atoms)
         tpos = {id(a): i for i, a in enumerate(tatoms)}
-        opname = {"match": "match", "get_substr_indices": "get_substr_indices", "ens.get_substr_indices": "ConformerEnsemble.get_substr_indices"}[api]
+        opname = OPNAME[api]
 
         agg.tick(opname, mattrs)
 
@@ -596,7 +608,7 @@ def run_match_part(ctx, agg, part):
 # part H : history dimension - the same object queried again after an in-place edit
 # =================================================================================================
 _COL = {Element.C: "C", Element.N: "N", Element.Unknown: "X"}
-OPNAME = {"match": "match", "get_substr_indices": "get_substr_indices", "ens.get_substr_indices": "ConformerEnsemble.get_substr_indices"}
+OPNAME = {"match": "match", "get_substr_indices": "get_substr_indices", "mol.get_substr_indices": "get_substr_indices", "ens.get_substr_indices": "ConformerEnsemble.get_substr_indices"}
 
 
 def graph_of(obj):
@@ -613,20 +625,70 @@ def graph_of(obj):
     return len(atoms), bl, tuple(_COL.get(a.element, "?") for a in atoms)
 
 
-def apply_graph_edit(obj, edit):
-    """edit: ("bond-added", i, j) | ("bond-deleted", i, j) | ("atom-deleted", k) -> repro line"""
+def _toggle(obj, atoms, i, j, via_connect=False):
+    ex = [b for b in obj.bonds if {id(b.a1), id(b.a2)} == {id(atoms[i]), id(atoms[j])}]
+    if ex:
+        obj.del_bond(ex[0])
+        return f"g.del_bond(g.lookup_bond(atoms[{i}], atoms[{j}]))"
+    if via_connect:
+        obj.connect(atoms[i], atoms[j])
+        return f"g.connect(atoms[{i}], atoms[{j}])"
+    obj.append_bond(Bond(atoms[i], atoms[j], btype=BondType.Double))
+    return f"g.append_bond(Bond(atoms[{i}], atoms[{j}], btype=BondType.Double))"
+
+
+def apply_graph_edit(obj, edit, mid=None):
+    """one in-place edit (possibly two consecutive operations) -> repro lines.
+    ("bond-added"|"bond-deleted", i, j)            toggle one bond
+    ("atom-deleted", k)
+    ("bond-moved", i, j, k, l)                     del_bond(i-j) then connect(k, l): the number of bonds stays
+    ("bond-list-replaced", n, refmask, shift)      connect_like(another graph with the same number of bonds)
+    ("bond-types-swapped", a, b)                   the types of bonds a and b of the bond list are exchanged
+    ("atom-added+atom-deleted", i, k)              new atom bonded to i, then atom k (one bond) deleted: counts stay
+    ("two-bonds-toggled", i, j, k, l)              two toggles without a query in between
+    ("two-bonds-toggled-queries-between", ...)     the same with a full round of queries between (mid is called)"""
     atoms = list(obj.atoms)
-    if edit[0] == "bond-added":
-        obj.append_bond(Bond(atoms[edit[1]], atoms[edit[2]], btype=BondType.Double))
-        return f"g.append_bond(Bond(g.atoms[{edit[1]}], g.atoms[{edit[2]}], btype=BondType.Double))"
-    if edit[0] == "bond-deleted":
-        b = next(b for b in obj.bonds if {id(b.a1), id(b.a2)} == {id(atoms[edit[1]]), id(atoms[edit[2]])})
-        obj.del_bond(b)
-        return f"g.del_bond(g.lookup_bond(g.atoms[{edit[1]}], g.atoms[{edit[2]}]))"
-    if edit[0] == "atom-deleted":
+    lines = ["atoms = list(g.atoms)"]
+    kind = edit[0]
+    if kind in ("bond-added", "bond-deleted"):
+        lines.append(_toggle(obj, atoms, edit[1], edit[2]))
+    elif kind == "atom-deleted":
         obj.del_atom(atoms[edit[1]])
-        return f"g.del_atom(g.atoms[{edit[1]}])"
-    raise HarnessError(str(edit))
+        lines.append(f"g.del_atom(atoms[{edit[1]}])")
+    elif kind == "bond-moved":
+        _, i, j, k, l = edit
+        lines.append(_toggle(obj, atoms, i, j))
+        lines.append(_toggle(obj, atoms, k, l, via_connect=True))
+    elif kind == "bond-list-replaced":
+        _, n, refmask, shift = edit
+        red = edges_of(n, refmask)
+        rbts = [BT_CYCLE[(k + shift) % 4] for k in range(len(red))]
+        ref = build("Connectivity", n, red, None, rbts)
+        obj.connect_like(ref)
+        lines += ["ref = Connectivity()", f"ratoms = [Atom(Element.C) for _ in range({n})]", "for a in ratoms: ref.append_atom(a)"]
+        lines += [f"ref.append_bond(Bond(ratoms[{i}], ratoms[{j}], btype=BondType.{bt}))" for (i, j), bt in zip(red, rbts)]
+        lines.append("g.connect_like(ref)")
+    elif kind == "bond-types-swapped":
+        ba, bb = obj.bonds[edit[1]], obj.bonds[edit[2]]
+        ba.btype, bb.btype = bb.btype, ba.btype
+        lines.append(f"g.bonds[{edit[1]}].btype, g.bonds[{edit[2]}].btype = g.bonds[{edit[2]}].btype, g.bonds[{edit[1]}].btype")
+    elif kind == "atom-added+atom-deleted":
+        _, i, k = edit
+        new = Atom(Element.C, label="new")
+        obj.append_atom(new)
+        obj.append_bond(Bond(atoms[i], new, btype=BondType.Triple))
+        obj.del_atom(atoms[k])
+        lines += ["new = Atom(Element.C, label='new'); g.append_atom(new)", f"g.append_bond(Bond(atoms[{i}], new, btype=BondType.Triple))", f"g.del_atom(atoms[{k}])"]
+    elif kind in ("two-bonds-toggled", "two-bonds-toggled-queries-between"):
+        _, i, j, k, l = edit
+        lines.append(_toggle(obj, atoms, i, j))
+        if kind.endswith("between"):
+            mid()
+            lines.append("list(g.yield_bfsd(atoms[0])); [g.is_bond_in_ring(b) for b in g.bonds]; [list(g.connected_atoms(a)) for a in g.atoms]  # a round of queries")
+        lines.append(_toggle(obj, atoms, k, l, via_connect=True))
+    else:
+        raise HarnessError(str(edit))
+    return lines
 
 
 def graph_history_case(ctx, agg, cls_name, n, mask, edit, seed):
@@ -636,8 +698,14 @@ def graph_history_case(ctx, agg, cls_name, n, mask, edit, seed):
     bts = [BT_CYCLE[(k + seed) % 4] for k in range(len(ed))]
     obj = build(cls_name, n, ed, None, bts)
     check_graph(ctx, Agg(), cls_name, n, ed, bts, ("atom",), obj=obj)  # first round: reported by part G, not here
+    def mid():
+        cur = graph_of(obj)
+        if cur is not None:
+            check_graph(ctx, Agg(), cls_name, cur[0], cur[1], None, ("atom",), obj=obj)  # single toggles are reported by their own cases
+
     try:
-        line = apply_graph_edit(obj, edit)
+        lines = apply_graph_edit(obj, edit, mid)
+        line = "; ".join(lines[1:])
     except Exception as e:
         ctx.add_note(f"history_edit_raised[{cls_name}:{edit[0]}:{type(e).__name__}]", 1)
         return
@@ -649,15 +717,17 @@ def graph_history_case(ctx, agg, cls_name, n, mask, edit, seed):
     n2, bl2, _ = cur
     hist = {
         "case": {"kind": "graph-history", "cls": cls_name, "n": n, "mask": mask, "edit": list(edit), "seed": seed},
-        "repro": repro_build(cls_name, n, ed, None, bts) + ["list(g.yield_bfsd(g.atoms[0])); [g.is_bond_in_ring(b) for b in g.bonds]; [list(g.connected_atoms(a)) for a in g.atoms]  # first round of queries", line],
+        "repro": repro_build(cls_name, n, ed, None, bts) + ["list(g.yield_bfsd(g.atoms[0])); [g.is_bond_in_ring(b) for b in g.bonds]; [list(g.connected_atoms(a)) for a in g.atoms]  # first round of queries"] + lines,
         "what": f"all queries on bonds {ed}, then {line}",
     }
     check_graph(ctx, agg, cls_name, n2, bl2, None, ("atom", "index"), obj=obj, sfx=f":history[{edit[0]}]", hist=hist)
     ctx.count(evaluations=1, traces=1)
     ctx.nontrivial(("gh", cls_name, n, mask, edit[0]))
+    ctx.outcome(("gh", edit[0], n2, len(bl2)))
 
 
 def graph_edits(n, mask):
+    """edits that change the number of bonds or atoms"""
     out = []
     for k, (i, j) in enumerate(pairs(n)):
         out.append(("bond-deleted", i, j) if mask >> k & 1 else ("bond-added", i, j))
@@ -666,12 +736,50 @@ def graph_edits(n, mask):
     return out
 
 
+def graph_moves(n, mask):
+    """every (removed bond, added bond) pair: the number of bonds stays"""
+    pr = pairs(n)
+    have = [p for k, p in enumerate(pr) if mask >> k & 1]
+    free = [p for k, p in enumerate(pr) if not mask >> k & 1]
+    return [("bond-moved", i, j, k, l) for (i, j) in have for (k, l) in free]
+
+
+def graph_edits_extended(n, mask, seed):
+    """edits that keep the number of bonds (and atoms), and two consecutive edits"""
+    pr = pairs(n)
+    m = bin(mask).count("1")
+    out = graph_moves(n, mask)
+    # the bond list of every other graph with the same number of bonds, through connect_like
+    out += [("bond-list-replaced", n, ref, 1 + seed % 3) for ref in range(1 << len(pr)) if ref != mask and bin(ref).count("1") == m and m > 0]
+    if m >= 2:
+        out.append(("bond-types-swapped", 0, m - 1))
+    adj = adjacency(n, edges_of(n, mask))
+    out += [("atom-added+atom-deleted", i, k) for k in range(n) if len(adj[k]) == 1 for i in range(n) if i != k]
+    for a, (i, j) in enumerate(pr):
+        for b, (k, l) in enumerate(pr):
+            if a != b:
+                out.append(("two-bonds-toggled", i, j, k, l))
+                if (mask >> a & 1) != (mask >> b & 1):  # one deleted, one added
+                    out.append(("two-bonds-toggled-queries-between", i, j, k, l))
+    return out
+
+
 def run_graph_history_part(ctx, agg, part):
-    n, lo, hi = part["n"], part["lo"], part["hi"]
+    n, lo, hi, thorough = part["n"], part["lo"], part["hi"], part.get("thorough", False)
+    all_cls = ("Connectivity", "Molecule", "ConformerEnsemble")
     for mask in range(lo, hi):
         for edit in graph_edits(n, mask):
-            for cls_name in ("Connectivity", "Molecule", "ConformerEnsemble") if n <= 4 else ("Connectivity",):
+            for cls_name in all_cls if n <= 4 else ("Connectivity",):
                 graph_history_case(ctx, agg, cls_name, n, mask, edit, ctx.seed)
+        if n <= 4:
+            for edit in graph_edits_extended(n, mask, ctx.seed):
+                for cls_name in all_cls if (n <= 3 or thorough) else ("Connectivity",):
+                    if edit[0] == "atom-added+atom-deleted" and cls_name != "Connectivity":
+                        continue  # adding an atom to a geometry-carrying object needs coordinates: C05's matter
+                    graph_history_case(ctx, agg, cls_name, n, mask, edit, ctx.seed)
+        else:
+            for edit in graph_moves(n, mask):
+                graph_history_case(ctx, agg, "Connectivity", n, mask, edit, ctx.seed)
 
 
 MATCH_EDITS = ("target-bond-toggled", "target-element-changed-in-place", "pattern-element-changed-in-place", "target-atom-deleted")
@@ -753,11 +861,41 @@ def match_history_case(ctx, agg, tg, pg, bt, edit, k, apis):
 
 
 def run_match_history_part(ctx, agg, part):
+    if part.get("own"):
+        # every labelling of the 3-atom patterns against a target that contains it
+        for pg in part["patterns"]:
+            for edit in MATCH_EDITS:
+                match_history_case(ctx, agg, own_targets(pg, ctx.seed)[0], pg, part["bt"], edit, part["ks"][0], ("match", "get_substr_indices", "ens.get_substr_indices"))
+        return
     for tg in part["targets"]:
         for pg in part["patterns"]:
             for edit in MATCH_EDITS:
                 for k in part["ks"]:
                     match_history_case(ctx, agg, tg, pg, part["bt"], edit, k, ("match", "get_substr_indices", "ens.get_substr_indices"))
+
+
+def own_targets(pg, seed):
+    """two targets in which the pattern certainly embeds: the pattern itself (Unknown -> C/N) under a vertex
+    permutation, and the same with one more atom attached"""
+    n, mask, cols = pg
+    tcols = tuple(("C" if (i + seed) % 2 else "N") if c == "X" else c for i, c in enumerate(cols))
+    perm = tuple(reversed(range(n))) if seed % 2 == 0 else tuple((i + 1) % n for i in range(n))
+    e2, c2 = relabel(n, edges_of(n, mask), tcols, perm)
+    t1 = (n, mask_of(n, e2), c2)
+    t2 = (n + 1, mask_of(n + 1, e2 + [(seed % n, n)]), c2 + ("C",))
+    return [t1, t2]
+
+
+def run_labelled_gsi_part(ctx, agg, part):
+    """get_substr_indices returns the target indices IN THE ORDER OF pattern.atoms: every atom order of every pattern"""
+    for pg in part["patterns"]:
+        for tg in own_targets(pg, ctx.seed):
+            for bt in ("Single", "Double", "Aromatic"):
+                ne, ninj = check_match(ctx, agg, tg, pg, bt, ("get_substr_indices", "mol.get_substr_indices", "ens.get_substr_indices"))
+                ctx.count(states=1)
+                if ne == 0:
+                    raise HarnessError(f"own target {tg} does not contain pattern {pg}")
+            ctx.nontrivial(("lg", pg[0], pg[1], "".join(pg[2])))
 
 
 def seed_rep(g, seed):
@@ -851,7 +989,7 @@ def run(ctx):
         blocks.append(("all labelled 5-atom graphs with one mixed element assignment x class-representative patterns <=3 [match]", skel5, cat(P_can, range(1, 4)), "Single", ("match",)))
         blocks.append(("class-representative targets <=5 x class-representative patterns <=3 [get_substr_indices]", can_all_T, cat(P_can, range(1, 4)), "Single", ("get_substr_indices",)))
         blocks.append(("class-representative targets <=4 x class-representative patterns <=3 [ConformerEnsemble.get_substr_indices]", cat(T_can, range(1, 5)), cat(P_can, range(1, 4)), "Single", ("ens.get_substr_indices",)))
-        dbl_T = cat(T_can, range(1, 5))
+        dbl_T = cat(T_can, range(1, 4))
     for bt in ("Double", "Aromatic"):
         blocks.append((f"class-representative targets <={dbl_T[-1][0]} x class-representative patterns <=3 [all three entry points, bonds={bt}]", dbl_T, cat(P_can, range(1, 4)), bt, ("match", "get_substr_indices", "ens.get_substr_indices")))
 
@@ -873,13 +1011,28 @@ def run(ctx):
     ctx.bound["M_pattern_atoms_max"] = pmax
     run_forked(ctx, agg, [(f"matching part {i}", run_match_part, p) for i, p in enumerate(parts)], nproc, 800)
 
+    # every labelling (atom order) of every connected pattern <= 3 atoms, and every labelled 4-atom skeleton with 3 element
+    # assignments, through get_substr_indices of Connectivity, Molecule and ConformerEnsemble against targets that contain it
+    lab = cat(P_lab, range(1, 4))
+    if 4 in P_lab:
+        lab4 = P_lab[4]
+    else:
+        lab4 = coloured_graphs(4, "CNX", connected_only=True)
+    if not thorough:
+        keep = {tuple("CCCC"), tuple(("CNXC" * 2)[seed % 4 : seed % 4 + 4]), tuple(("NNCX" * 2)[seed % 4 : seed % 4 + 4])}
+        lab4 = [g for g in lab4 if g[2] in keep]
+    lab = lab + lab4
+    ctx.bound["M_labelled_patterns_through_get_substr_indices_of_3_classes"] = len(lab)
+    if not only:
+        run_forked(ctx, agg, [(f"labelled patterns gsi {i}", run_labelled_gsi_part, {"patterns": lab[i::16]}) for i in range(16)], nproc, 800)
+
     # ---- part H : history dimension -------------------------------------------------------------
     hn = 5 if thorough else 4
     hparts = []
     for n in range(1, hn + 1):
         total = 1 << len(pairs(n))
         step = max(1, total // (64 if n == 5 else (8 if n == 4 else 1)))
-        hparts += [{"n": n, "lo": lo, "hi": min(total, lo + step)} for lo in range(0, total, step)]
+        hparts += [{"n": n, "lo": lo, "hi": min(total, lo + step), "thorough": thorough} for lo in range(0, total, step)]
     hP = cat(P_can, range(1, 4))
     ks = (seed % 3,)
     if thorough:
@@ -890,14 +1043,22 @@ def run(ctx):
         mh = [{"targets": cat(T_can, range(1, 4))[i::4], "patterns": hP, "bt": "Single", "ks": ks} for i in range(4)]
         mh += [{"targets": T_can[4][i::4], "patterns": cat(P_can, range(1, 3)), "bt": "Single", "ks": ks} for i in range(4)]
     mh.append({"targets": cat(T_can, range(1, 4)), "patterns": cat(P_can, range(1, 3)), "bt": "Aromatic", "ks": ks})
+    mh += [{"own": True, "patterns": P_lab[3][i::4], "bt": "Single", "ks": ks} for i in range(4)]
     if not only or only.startswith("H"):
         run_forked(ctx, agg, [(f"graph history n={p['n']} [{p['lo']},{p['hi']})", run_graph_history_part, p) for p in hparts], nproc, 800)
         run_forked(ctx, agg, [(f"matching history part {i}", run_match_history_part, p) for i, p in enumerate(mh)], nproc, 800)
     ctx.bound["H_graph_atoms_max"] = hn
-    ctx.bound["H_graph_edits"] = "every single bond toggled (append_bond / del_bond), every atom deleted; on Connectivity, Molecule, ConformerEnsemble (5 atoms: Connectivity)"
+    ctx.bound["H_graph_edits"] = (
+        "every single bond toggled (append_bond / del_bond), every atom deleted; every bond MOVED (del_bond + connect, every (removed, added) pair); the bond list "
+        "replaced through connect_like by that of every other graph with the same number of bonds; two bond types swapped; atom+bond added and a one-bond atom "
+        "deleted; every ordered pair of two toggles, with and without a round of queries between; on Connectivity, Molecule, ConformerEnsemble "
+        "(quick: 4-atom graphs with the count-preserving edits on Connectivity only; 5 atoms: toggles, deletions and moves on Connectivity)"
+    )
     ctx.bound["H_match_edits"] = list(MATCH_EDITS)
     conseq = list(CONSEQUENTIAL) + [(f"{d}:history[{e}]", f"{u}:history[{e}]") for d, u in CONSEQUENTIAL for e in MATCH_EDITS]
-    agg.emit(ctx, consequential=conseq)
+    from mc.core import load_known
+
+    agg.emit(ctx, consequential=conseq, known=set(load_known(ctx.pid)), depends=DEPENDS)
 
     # ---- a few cases written out (run in this process, deterministic) -----------------------------
     sc = ctx.sub(10_000)
